@@ -200,15 +200,20 @@ func (m *SessionManager) CreateSession(clientMAC, serverMAC net.HardwareAddr) (*
 	m.mu.Lock()
 	defer m.mu.Unlock()
 
-	// Find next available session ID
-	for {
+	// Find next available session ID (at most one pass over the 16-bit ID space)
+	found := false
+	for tries := 0; tries <= 0xFFFF; tries++ {
 		if _, exists := m.sessions[m.nextID]; !exists {
+			found = true
 			break
 		}
 		m.nextID++
 		if m.nextID == 0 {
 			m.nextID = 1 // Skip 0
 		}
+	}
+	if !found {
+		return nil, fmt.Errorf("no free PPPoE session IDs")
 	}
 
 	session, err := NewSession(m.nextID, clientMAC, serverMAC)
